@@ -423,7 +423,7 @@ def check_pack(ctx, res: Result, prop_id: str):
             if imp[0] == "symbol" and imp[1] in ctx.prog.modules and imp[1].split(".")[-1].startswith("_") and ctx.prog.modules[imp[1]] not in mods:
                 mods.append(ctx.prog.modules[imp[1]])
     fis = [fi for fi in ctx.prog.functions.values() if fi.module in mods]
-    lints = (("G-STALE", check_stale_in_loop), ("G-REUSE", check_iterator_reuse), ("N-FANCYAUG", check_fancy_augassign), ("G-GROUPBY", check_groupby_sorted), ("E-SHARED", check_shared_literals), ("G-LIVEITER", check_mutation_while_iterating), ("E-DEFAULTARG", check_mutable_defaults), ("G-KEYPROJ", check_key_projection), ("K-OWNER", check_id_owner), ("G-COUNTERADD", check_counter_arith), ("G-ZEROBUCKET", check_zero_buckets), ("G-LENVALID", check_len_validated_cache), ("G-SHAPEGUESS", check_layout_guess), ("K-LABELTYPE", check_label_type_dispatch))
+    lints = (("G-STALE", check_stale_in_loop), ("G-REUSE", check_iterator_reuse), ("N-FANCYAUG", check_fancy_augassign), ("G-GROUPBY", check_groupby_sorted), ("E-SHARED", check_shared_literals), ("G-LIVEITER", check_mutation_while_iterating), ("E-DEFAULTARG", check_mutable_defaults), ("G-KEYPROJ", check_key_projection), ("K-OWNER", check_id_owner), ("G-COUNTERADD", check_counter_arith), ("G-ZEROBUCKET", check_zero_buckets), ("G-LENVALID", check_len_validated_cache), ("G-SHAPEGUESS", check_layout_guess), ("K-LABELTYPE", check_label_type_dispatch), ("G-ZIPALIGN", check_zip_alignment), ("G-TRUTHY0", check_truthy_index))
     seen_keys = {(o.rule, o.func, o.stmt) for o in res.obs}
     for rule, fn in lints:
         n_f = n_v = 0
@@ -905,3 +905,93 @@ def check_label_type_dispatch(ctx, res: Result, dotted, rule="K-LABELTYPE"):
             res.violation(rule, f, norm(c)[:100], norm(c.args[0])[:40], f"`{norm(c.args[0])[:40]}` is a node label here; `{norm(c)[:60]}` dispatches on its Python type, but labels are opaque (a hyperedge of two tuple-labelled nodes has exactly the shape of a (source, target) pair): such a hyperedge is taken apart into the components of its labels", loc(fi, c))
     if n == 0:
         res.ok(rule, f, "no dispatch on the type of a node label", "scan", loc(fi, fi.node))
+
+
+def check_zip_alignment(ctx, res: Result, dotted, rule="G-ZIPALIGN"):
+    """`zip(sorted(d), d.values())` / `zip(sorted(d.keys()), d.values())`: the i-th SMALLEST key is paired with the value that was
+    inserted i-th.  The pairs are right only while the dict happens to have been filled in increasing key order."""
+    v = ctx.view(dotted)
+    fi = v.fi
+    f = fi.short
+    res.rules.setdefault(rule, "the keys and the values of one mapping are zipped in the same order (never sorted keys against values in insertion order)")
+    n = 0
+
+    def container_of(e):
+        """(text of the mapping, which view of it, sorted?) for d / d.keys() / d.values() / d.items() / sorted(<one of these>)"""
+        srt = False
+        if isinstance(e, ast.Name):
+            e = v.inline(e, depth=1)
+        if isinstance(e, ast.Call) and isinstance(e.func, ast.Name) and e.func.id == "sorted" and e.args:
+            srt = True
+            e = e.args[0]
+            if isinstance(e, ast.Name):
+                e2 = v.inline(e, depth=1)
+                e = e2 if e2 is not e else e
+        if isinstance(e, ast.Call) and isinstance(e.func, ast.Name) and e.func.id in ("list", "tuple") and e.args:
+            e = e.args[0]
+        view = "keys"
+        if isinstance(e, ast.Call) and isinstance(e.func, ast.Attribute) and e.func.attr in ("keys", "values", "items") and not e.args:
+            view = e.func.attr
+            e = e.func.value
+        if isinstance(e, (ast.Name, ast.Attribute)):
+            return norm(e), view, srt
+        return None
+
+    for c in walk_no_nested(fi.node):
+        if not (isinstance(c, ast.Call) and isinstance(c.func, ast.Name) and c.func.id == "zip" and len(c.args) >= 2):
+            continue
+        parts = [container_of(a) for a in c.args]
+        for i, a in enumerate(parts):
+            for j, b in enumerate(parts):
+                if i >= j or a is None or b is None:
+                    continue
+                if a[0] == b[0] and a[2] != b[2] and {a[1], b[1]} & {"values", "items"}:
+                    n += 1
+                    res.violation(rule, f, norm(c)[:100], a[0], f"`{norm(c)[:70]}` pairs the keys of `{a[0]}` in SORTED order with its values in INSERTION order: the i-th smallest key gets the i-th inserted value - right only while the mapping was filled in increasing key order (a snapshot table filled in the order in which times were first seen is not)", loc(fi, c))
+    if n == 0:
+        res.ok(rule, f, "no mis-aligned zip of a mapping with itself", "scan", loc(fi, fi.node))
+
+
+def check_truthy_index(ctx, res: Result, dotted, rule="G-TRUTHY0"):
+    """A local that starts as None and later holds a loop index / position (the variable of `for i in range(...)`, the counter of
+    `enumerate`) is tested by truthiness: index 0 is falsy, so `if not best:` cannot tell `nothing stored yet` from `the first
+    item is stored` - the first item's slot is treated as empty."""
+    v = ctx.view(dotted)
+    fi = v.fi
+    f = fi.short
+    res.rules.setdefault(rule, "a local that is None until it holds a loop index is tested with `is None`, never by truthiness (index 0 is falsy)")
+    n = 0
+    # loop indices: targets of `for i in range(..)`, first targets of `for i, x in enumerate(..)`
+    idx_names = set()
+    for lp in walk_no_nested(fi.node):
+        if isinstance(lp, ast.For) and isinstance(lp.iter, ast.Call) and isinstance(lp.iter.func, ast.Name):
+            if lp.iter.func.id == "range" and isinstance(lp.target, ast.Name):
+                idx_names.add(lp.target.id)
+            if lp.iter.func.id == "enumerate" and isinstance(lp.target, ast.Tuple) and lp.target.elts and isinstance(lp.target.elts[0], ast.Name):
+                # enumerate(..., start=1) never yields 0
+                if not any(kw.arg == "start" for kw in lp.iter.keywords) and len(lp.iter.args) < 2:
+                    idx_names.add(lp.target.elts[0].id)
+    cands = {}
+    for a in walk_no_nested(fi.node):
+        if isinstance(a, ast.Assign) and len(a.targets) == 1 and isinstance(a.targets[0], ast.Name):
+            nm = a.targets[0].id
+            if isinstance(a.value, ast.Constant) and a.value.value is None:
+                cands.setdefault(nm, set()).add("none")
+            elif isinstance(a.value, ast.Name) and a.value.id in idx_names:
+                cands.setdefault(nm, set()).add("index")
+            else:
+                cands.setdefault(nm, set()).add("other")
+    watch = {nm for nm, kinds_ in cands.items() if kinds_ == {"none", "index"}}
+    if watch:
+        from .rules_container import _atoms
+
+        for t in walk_no_nested(fi.node):
+            test = t.test if isinstance(t, (ast.If, ast.While, ast.IfExp)) else None
+            if test is None:
+                continue
+            for atom, _pos in _atoms(test, True):
+                if isinstance(atom, ast.Name) and atom.id in watch:
+                    n += 1
+                    res.violation(rule, f, norm(test)[:100], atom.id, f"`{atom.id}` is None until it is given a loop index, and `{norm(test)[:50]}` tests it by truthiness: index 0 counts as `nothing yet`, so whatever the first item stored is overwritten by the next one (the best-so-far bookkeeping forgets item 0)", loc(fi, t))
+    if n == 0:
+        res.ok(rule, f, "no truthiness test of a None-or-index local", "scan", loc(fi, fi.node))
